@@ -8,34 +8,34 @@ Import GRing.Theory.
 Local Open Scope ring_scope.
 
 (* strictly lower: the forward scan computes (documented strictly-lower matrix) *m x *)
-Theorem C04_strict_lower_matmul (F : fieldType) c (l : tri F) (x : mat F) :
-  mx_of (tn l) c (sl_matmul (fops F) c l x) = den_sl l *m mx_of (tn l) c x.
+Theorem C04_strict_lower_matmul (F : fieldType) (sq : F -> F) (lt : F -> F -> bool) c (l : tri F) (x : mat F) :
+  mx_of (tn l) c (sl_matmul (fops sq lt) c l x) = den_sl l *m mx_of (tn l) c x.
 Proof. exact: sl_matmul_den. Qed.
 Print Assumptions C04_strict_lower_matmul.
 
 (* strictly upper: the backward scan computes (transpose of the strictly-lower matrix with the same generators) *m x *)
-Theorem C04_strict_upper_matmul (F : fieldType) c (u : tri F) (x : mat F) :
-  mx_of (tn u) c (su_matmul (fops F) c u x) = (den_sl u)^T *m mx_of (tn u) c x.
+Theorem C04_strict_upper_matmul (F : fieldType) (sq : F -> F) (lt : F -> F -> bool) c (u : tri F) (x : mat F) :
+  mx_of (tn u) c (su_matmul (fops sq lt) c u x) = (den_sl u)^T *m mx_of (tn u) c x.
 Proof. exact: su_matmul_den. Qed.
 Print Assumptions C04_strict_upper_matmul.
 
 (* every kind: A @ x is (den A) x *)
-Theorem C04_matmul_den (F : fieldType) c (A : qsm F) (x : mat F) : qwf A ->
-  mx_of (qsize A) c (qmatmul (fops F) c A x) = den (qsize A) A *m mx_of (qsize A) c x.
+Theorem C04_matmul_den (F : fieldType) (sq : F -> F) (lt : F -> F -> bool) c (A : qsm F) (x : mat F) : qwf A ->
+  mx_of (qsize A) c (qmatmul (fops sq lt) c A x) = den (qsize A) A *m mx_of (qsize A) c x.
 Proof. exact: qmatmul_den. Qed.
 Print Assumptions C04_matmul_den.
 
-Theorem C04_to_dense_den (F : fieldType) (A : qsm F) : qwf A ->
-  mx_of (qsize A) (qsize A) (qdense (fops F) A) = den (qsize A) A.
+Theorem C04_to_dense_den (F : fieldType) (sq : F -> F) (lt : F -> F -> bool) (A : qsm F) : qwf A ->
+  mx_of (qsize A) (qsize A) (qdense (fops sq lt) A) = den (qsize A) A.
 Proof. exact: qdense_den. Qed.
 Print Assumptions C04_to_dense_den.
 
-Theorem C04_transpose_den (F : fieldType) n (A : qsm F) : den n (qtranspose A) = (den n A)^T.
+Theorem C04_transpose_den (F : fieldType) (sq : F -> F) (lt : F -> F -> bool) n (A : qsm F) : den n (qtranspose A) = (den n A)^T.
 Proof. exact: qtranspose_den. Qed.
 Print Assumptions C04_transpose_den.
 
-Theorem C04_rmatmul_den (F : fieldType) r (x : mat F) (A : qsm F) : qwf A ->
-  mx_of r (qsize A) (qrmatmul (fops F) r x A) = mx_of r (qsize A) x *m den (qsize A) A.
+Theorem C04_rmatmul_den (F : fieldType) (sq : F -> F) (lt : F -> F -> bool) r (x : mat F) (A : qsm F) : qwf A ->
+  mx_of r (qsize A) (qrmatmul (fops sq lt) r x A) = mx_of r (qsize A) x *m den (qsize A) A.
 Proof. exact: qrmatmul_den. Qed.
 Print Assumptions C04_rmatmul_den.
 
